@@ -1700,6 +1700,25 @@ func init() {
 		p.Tail = 0
 		statusCalls(r, p)
 		p.Sched = SchedCfg{YieldProb: 0.6, StallMax: Pick(r, []time.Duration{50 * ms, 200 * ms, 400 * ms}), StallSites: []string{"StopWithContext", "Stop"}}
+		if t0 == 0 && r.Bool(0.25) {
+			// a callback that is slow to take its turn in the callback order (held up for up to 2 s
+			// before it looks at the order), a StopWithContext that gives up waiting after a fraction
+			// of that - it fails, and hands back the turn it had taken for its OnDemote - and a Start
+			// once the old run has drained: the next term's callbacks must come
+			p.Actions = p.Actions[:1] // the first Start only
+			to := Pick(r, []time.Duration{100 * ms, 300 * ms})
+			p.Actions = append(p.Actions, Action{Kind: AStopCtx, Inst: 0, OpKind: "create", OpN: 1, Phase: "return", Delay: r.Dur(0, 50*ms), Timeout: to, WaitForDemote: r.Bool(0.5), DeleteKey: r.Bool(0.3)})
+			for j := 0; j < 2+r.Intn(3); j++ {
+				p.Actions = append(p.Actions, Action{At: r.Dur(2200*ms, 5*sec), Kind: AStart, Inst: 0})
+			}
+			p.Until = 5*sec + 3*p.TTL + 6*sec
+			statusCalls(r, p)
+			// (the callback's goroutine is new - the harness cannot attribute it to the instance -, so its
+			// stall is accounted to nobody: only the oracles without time bounds judge these plans)
+			p.Sched = SchedCfg{YieldProb: 0.9, StallMax: 2 * sec, StallSites: []string{"callbackTurn"}, StallUntil: 2 * sec, StallUnknown: true}
+			p.Judge = []string{"C08", "C19", "C05"}
+			p.NoJudge = append(p.NoJudge, "C06", "C18")
+		}
 		return p
 	}
 }
